@@ -129,6 +129,11 @@ type config struct {
 	FieldTypes map[string]string    `json:"fieldtypes"` // "Struct.field" -> struct type name: the field is a slice of that struct (overrides the declared type, e.g. a color.Palette of RGBA entries, all set)
 	Join    bool                  `json:"join"`    // an if statement whose branches only assign locals is `let vars := if c then .. else .. in rest` (no duplication of rest)
 	Fmtx    *fmtxCfg              `json:"fmtx"`    // ext_fmt.go: interface{} values, type switches, / and %, strings, labels, world byte buffers (kfmt/fmt.go)
+	// ext_ctor.go: constructors returning &T{..}; unsigned / and %; integer expressions probed inside untranslated functions
+	Ctor    bool        `json:"ctor"`
+	DivMod  bool        `json:"divmod"`
+	Probes  []probeSpec `json:"probes"`
+	Hal     *halCfg     `json:"hal"` // ext_hal.go: references, dynamic-type oracle, world variables, summarised map loops (kernel/hal)
 	// ext_c13trans.go (pool pointer mode): *T as a position in the receiver's slice []*T; opaque payload fields; oracle functions; external table columns
 	PoolPtr   map[string]string   `json:"poolptr"`
 	Payload   map[string][]string `json:"payload"`
@@ -211,6 +216,11 @@ func coqName(pkg, recv, name string) string {
 func v(name string) string { return "v_" + name }
 
 func typeOf(e ast.Expr, pkg string) tinfo {
+	if cfg.Hal != nil {
+		if ti, ok := halTypeOf(e); ok {
+			return ti
+		}
+	}
 	if cfg.Fmtx != nil {
 		if ti, ok := fmtxTypeOf(e); ok {
 			return ti
@@ -533,7 +543,7 @@ func carried(en *env, stmts []ast.Stmt) []string {
 		}
 	}
 	sort.Strings(names)
-	return names
+	return gstructCarried(en, stmts, names) // ext_gstruct.go (config "gstructs"): struct variables the statements change
 }
 
 // seam returns the seam of the struct being translated
@@ -626,6 +636,11 @@ func (tr *translator) wrapPre(pre []string, body string) string {
 
 // field access on the struct receiver: returns (field, ok)
 func (tr *translator) recvField(e ast.Expr) (sfield, bool) {
+	if cfg.Hal != nil {
+		if f, ok := tr.halField(e); ok {
+			return f, true
+		}
+	}
 	if cfg.Fmtx != nil {
 		if f, ok := tr.fmtxField(e); ok {
 			return f, true
@@ -672,6 +687,11 @@ func (tr *translator) wrap(w int, s string) string {
 
 // expr returns the Gallina term and the type
 func (tr *translator) expr(e ast.Expr, en *env) (string, tinfo) {
+	if cfg.Hal != nil {
+		if s, ti, ok := tr.halExpr(e, en); ok { // ext_hal.go (config "hal")
+			return s, ti
+		}
+	}
 	if mbOn() { // ext_mb.go (config "memstructs")
 		if s, ti, ok := tr.mbExpr(e, en); ok {
 			return s, ti
@@ -903,6 +923,9 @@ func (tr *translator) expr(e ast.Expr, en *env) (string, tinfo) {
 			return v(id.Name), en.vars[id.Name] // *p of a pointer parameter: the parameter stands for the pointee
 		}
 	case *ast.UnaryExpr:
+		if cs, ct, ok := tr.ctorLit(t, en); ok { // ext_ctor.go: &T{..} (config "ctor")
+			return cs, ct
+		}
 		x, ti := tr.expr(t.X, en)
 		switch t.Op {
 		case token.NOT:
@@ -1029,7 +1052,7 @@ func (tr *translator) expr(e ast.Expr, en *env) (string, tinfo) {
 		case token.LOR:
 			return "(" + xs + " || " + ys + ")", tinfo{width: -1}
 		case token.QUO, token.REM:
-			if cfg.Fmtx != nil {
+			if cfg.Fmtx != nil || cfg.DivMod {
 				return tr.fmtxDivMod(t.Op, xs, ys, xt, yt)
 			}
 		}
@@ -1116,6 +1139,10 @@ func (tr *translator) expr(e ast.Expr, en *env) (string, tinfo) {
 						pat = "_"
 					}
 					for _, xp := range monExtra[name] {
+						if a, ok := tr.gstructExtArg(xp, en); ok { // ext_gstruct.go: an extvar that is a field of a threaded struct variable
+							args = append(args, a)
+							continue
+						}
 						args = append(args, xp.name)
 						switch xp.kind {
 						case "seam":
@@ -1298,6 +1325,14 @@ func (tr *translator) block(stmts []ast.Stmt, en *env, k func(en *env) string) s
 		return k(en)
 	}
 	rest := func(en2 *env) string { return tr.block(stmts[1:], en2, k) }
+	if cfg.Hal != nil {
+		if out, ok := tr.halStmt(stmts, en, k); ok { // ext_hal.go (config "hal")
+			return out
+		}
+	}
+	if out, ok := tr.gstructStmt(stmts, en, k); ok { // ext_gstruct.go (config "gstructs"): g.f = e, g.f++, x, y := g.M(..)
+		return out
+	}
 	if mbOn() { // ext_mb.go (config "memstructs")
 		if out, ok := tr.mbStmt(stmts, en, k, rest); ok {
 			return out
@@ -2228,7 +2263,11 @@ func (tr *translator) rangeLoop(s *ast.RangeStmt, en *env, rest func(*env) strin
 		return kid.Name
 	}
 	key := bind(s.Key, tinfo{width: 64, signed: true})
-	val := bind(s.Value, tinfo{width: 8})
+	valTy := tinfo{width: 8}
+	if acpiOn() && en.vars[id.Name].elem > 8 { // ext_acpi.go: a local []uintptr - the range value has the element's width
+		valTy = tinfo{width: en.vars[id.Name].elem}
+	}
+	val := bind(s.Value, valTy)
 	all := append(append([]string{}, names...), hidden)
 	pat, ty := tr.statePat(all, en2)
 	restC := tr.capture(rest)
@@ -2571,6 +2610,9 @@ func main() {
 				if cfg.Fmtx != nil {
 					fmtxWorldFields() // package-level byte buffers next to the trace
 				}
+				if cfg.Hal != nil {
+					halWorldFields() // package-level references next to the trace
+				}
 			}
 		}
 	}
@@ -2697,7 +2739,7 @@ func main() {
 			tr.ptrRecv = "world"
 			params = append(params, "("+v("world")+" : "+recName(structPkg["world"], "world")+")")
 		}
-		if decl.Recv != nil && !memRecv(tr, decl, en, &params) { // ext_mem.go: a "world" function with a receiver
+		if decl.Recv != nil && !memRecv(tr, decl, en, &params) && !acpiRecv(tr, decl, en, &params) && !halRecv(tr, decl, en, &params) { // ext_mem.go / ext_acpi.go: a "world" function with a receiver
 			r := decl.Recv.List[0]
 			ti := typeOf(r.Type, spec.Pkg)
 			name := "recv"
@@ -2726,6 +2768,9 @@ func main() {
 			if memParam(tr, p, en, &params) { // ext_mem.go: function-typed (seam) and pointer-into-memory parameters
 				continue
 			}
+			if acpiParam(tr, p, en, &params) { // ext_acpi.go: parameters of an opaque type (io.Writer) are dropped
+				continue
+			}
 			if mbParam(tr, p, en, &params) { // ext_mb.go: a parameter of a callback type (config "memstructs")
 				continue
 			}
@@ -2738,6 +2783,7 @@ func main() {
 					ti = tinfo{width: -6} // a reference of the seam's interface type: "is non-nil"
 				}
 			}
+			ti = ctorParam(p, ti) // ext_ctor.go: an unknown pointer type is an opaque reference (config "ctor")
 			if ti.width == -3 || ti.width == -2 || (ti.width < -3 && !cfg.Gres) || ti.width == -5 {
 				fail("%s: unsupported parameter type", spec.Name)
 			}
@@ -2810,6 +2856,7 @@ func main() {
 				}
 			}
 		}
+		params = tr.gstructSetup(en, params) // ext_gstruct.go (config "gstructs"): struct variables threaded through as in/out records
 		// first pass to learn which globals are touched
 		probe := *tr
 		probe.usedGlob = map[string]bool{}
@@ -2882,5 +2929,8 @@ func main() {
 		}
 		fmt.Printf("(* %s : %s %s *)\n", spec.File, spec.Recv, spec.Name)
 		fmt.Printf("Definition %s %s :=\n  %s.\n\n", name, strings.Join(append(gparams, params...), " "), body)
+	}
+	if len(cfg.Probes) > 0 {
+		emitProbes(files, funcs) // ext_ctor.go
 	}
 }
